@@ -48,6 +48,13 @@ class CopyListenerEq(CopyListener):
         return 7
 
 
+class CopyListenerFalsy(CopyListener):
+    """A collection-like listener: falsy (empty) when it is attached and when it is copied."""
+
+    def __len__(self):
+        return len(self.seen)
+
+
 class CopyListenerAsync(CopyListener):
     on_transition = _mk_async("on_transition")
     on_enter_s1 = _mk_async("on_enter_s1")
